@@ -528,6 +528,10 @@ inline Val genScalar(Rng& r, const GenOpts& o) {
     // MessagePack bin 8 / fixext / ext 8 object
     std::string payload;
     size_t n = size_t(r.below(20));
+    if (r.chance(1, 6)) {
+      static const size_t blocks[] = {15, 16, 17, 31, 32, 33, 47, 48, 64};  // around multiples of a 16-byte block
+      n = blocks[r.below(9)];
+    }
     if (o.binEdges && r.chance(1, 12)) {
       static const size_t edges[] = {254, 255, 256, 257};
       n = edges[r.below(4)];
